@@ -97,6 +97,14 @@ impl DevSpace {
         }
         DevSpace { name: name.to_string(), shapes, tuples, t, offs }
     }
+    /// The undeviated base shape of case `i`.
+    pub fn base_of(&self, i: u64) -> &[u8] {
+        let s = match self.offs.binary_search(&i) {
+            Ok(k) => k,
+            Err(k) => k - 1,
+        };
+        &self.shapes[s.min(self.shapes.len() - 1)]
+    }
     /// Case `i`: writes the bytes into `buf`; returns (number of deviating
     /// fields incl. a stale PEC, the PEC was re-computed).
     pub fn get(&self, i: u64, buf: &mut Vec<u8>) -> (u64, bool) {
